@@ -118,3 +118,12 @@ Example ex_wire_none :
   marshal_header_names {| dh_interface := None; dh_member := None; dh_object := None;
                           dh_destination := None; dh_sender := None; dh_error_name := None |} [] = Ok [].
 Proof. vm_compute. reflexivity. Qed.
+
+(* the TryFrom constructors and the typed marshal of the wrapper *)
+Example ex_try_from : (objectpath_try_from_str p_ab, objectpath_try_from_string p_ab, objectpath_try_from_str [47;47],
+                       objectpath_try_from_string [97]) = (Ok p_ab, Ok p_ab, Err, Err).
+Proof. vm_compute. reflexivity. Qed.
+Example ex_typed_marshal : (marshal_objectpath_typed (objectpath_to_owned p_ab), marshal_objectpath_typed [47;0]) = (Ok p_ab, Err).
+Proof. vm_compute. reflexivity. Qed.
+Example ex_ctor : objectpath_ctor objectpath_try_from_string.
+Proof. right. right. reflexivity. Qed.
